@@ -356,6 +356,15 @@ func c19Keys() []string {
 	return k
 }
 
+// the subscription index is small enough for the empty last level ("a/") at the quick depth too
+func c19SubKeys() []string {
+	k := []string{"a", "a/b", "a/b/c", "a/c", "b", "a/"}
+	if vk.Thorough() {
+		k = append(k, "b/a", "/a")
+	}
+	return k
+}
+
 func TestC19Topics(t *testing.T) {
 	rep := vk.NewReport("C19", "C19/topics-store", "E1-bfs")
 	keys := c19Keys()
@@ -391,7 +400,7 @@ func TestC19Topics(t *testing.T) {
 
 func TestC19Subs(t *testing.T) {
 	rep := vk.NewReport("C19", "C19/subscription-index", "E1-bfs")
-	keys := c19Keys()
+	keys := c19SubKeys()
 	var ops []c19op
 	for _, k := range keys {
 		for _, v := range []string{"x", "y", ""} {
